@@ -241,10 +241,13 @@ Print Assumptions C19_plan_sqlite_driver.
 
 (** non-vacuity: column b of t is excluded in both states, column c is added: the plan adds c
     and says nothing about b, which only the current state has *)
+Definition ex_from' : schema :=
+  mkSchema [109]%N [mkTable [116]%N false false [ex_col 97] None
+    [mkIndex [105]%N false [mkPart 0 false (Some [97]%N) None] None None None] [] []].
+
 Example C19_plan_nonvacuous :
   let pats := [[109;46;116;46;98]%N] in   (* "m.t.b" *)
-  exists from' to',
-    ExcludeRealm (true, true) [ex_from] pats = EOk [from'] /\
-    ExcludeRealm (true, true) [ex_to] pats = EOk [to'] /\
-    SchemaDiff sqlite_driver no_skip from' to' = Some [ModifyTable [116]%N [AddColumn [99]%N; DropIndex [105]%N]].
-Proof. eexists; eexists. split; [vm_compute; reflexivity|]. split; vm_compute; reflexivity. Qed.
+  ExcludeRealm (true, true) [ex_from] pats = EOk [ex_from'] /\
+  ExcludeRealm (true, true) [ex_to] pats = EOk [ex_to] /\
+  SchemaDiff sqlite_driver no_skip ex_from' ex_to = Some [ModifyTable [116]%N [AddColumn [99]%N; DropIndex [105]%N]].
+Proof. split; [vm_compute; reflexivity|]. split; vm_compute; reflexivity. Qed.
